@@ -137,12 +137,21 @@ def setup_disk(root: str) -> None:
 			f.write(src)
 
 
+# storage axis: the modules whose text the application holds in memory next to `__main__` instead of reading a file (where
+# the text of a module lives is no part of the specification's state: every law holds for either world)
+HELD: tuple = ()
+
+
+def held_sources() -> dict:
+	return {real_name(m): DISK[m] for m in HELD}
+
+
 class Session:
 	"""One long-lived application with the projection used by the spec."""
 
 	def __init__(self) -> None:
 		from harness.tranp_env import Env
-		self.env = Env(sources={'__main__': MAIN['ia']})
+		self.env = Env(sources={'__main__': MAIN['ia'], **held_sources()})
 
 	def step(self, op: dict) -> dict:
 		from rogw.tranp.errors import Errors
@@ -197,12 +206,13 @@ class Session:
 def fresh_text(m: str, mv: str) -> str:
 	"""Text a fresh application prints for module m (main in variant mv)"""
 	from harness.tranp_env import Env
-	env = Env(sources={'__main__': MAIN[mv]})
+	env = Env(sources={'__main__': MAIN[mv], **held_sources()})
 	return env.transpile(real_name(m))
 
 
 def _replay(args) -> dict:
-	paths, = args
+	global HELD
+	paths, HELD = args
 	from harness.tranp_env import enter_scratch
 	root = enter_scratch('verif-c04-')
 	setup_disk(root)
@@ -366,10 +376,30 @@ def run(ctx: Ctx) -> int:
 	for path in paths:
 		if path[-1][0]['name'] == 'transpile' and any(op['name'] == 'load' and op['m'] != 'main' and op['res'] == 'ok' for op, _ in path[:-1]):
 			variants.append([({'name': 'transpile', 'm': op['m'], 'res': 'ok'}, to) if op['name'] == 'load' and op['m'] != 'main' and op['res'] == 'ok' else (op, to) for op, to in path[:-1]] + [path[-1]])
-	paths = paths + variants
+	# ... and a state is reached by the FIRST history that leads to it: an operation that leaves the specification's state as
+	# it is (the reload of a module whose imports are all loaded) never stands in front of a later operation.  Every history
+	# that ends in a transpile is replayed once more with each such reload - an edge of TLC's stream - put before the transpile
+	loops: dict[str, list] = {}
+	for e in edges:
+		if e['op']['name'] == 'reload' and key(e['from']) == key(e['to']):
+			loops.setdefault(key(e['from']), []).append((e['op'], e['to']))
+	init_key = next(k for k, v in parent.items() if v is None)
+	reloads = []
+	for path in paths:
+		if path[-1][0]['name'] == 'transpile' and path[-1][0].get('res') == 'ok':
+			pre = key(path[-2][1]) if len(path) > 1 else init_key
+			for step in loops.get(pre, []):
+				reloads.append(path[:-1] + [step, path[-1]])
+	paths = paths + variants + reloads
 	nproc = 16
 	with ProcessPoolExecutor(max_workers=nproc) as ex:
-		results = list(ex.map(_replay, [(paths[i::nproc],) for i in range(nproc)]))
+		results = list(ex.map(_replay, [(paths[i::nproc], ()) for i in range(nproc)]))
+		# ... and once more with module a held in memory (storage axis)
+		held_results = list(ex.map(_replay, [(paths[i::nproc], ('a',)) for i in range(nproc)]))
+	for r in held_results:
+		for f in r['failures']:
+			f['detail'] = '[module a held in memory] ' + f['detail']
+	results = results + held_results
 	failures = [f for r in results for f in r['failures']]
 	ntexts = sum(r['texts'] for r in results)
 	ctx.log(f'{len(paths)} edges replayed on long-lived applications, {ntexts} transpile texts compared with fresh processes: {len(failures)} failures')
